@@ -23,7 +23,7 @@
 namespace Quic.Recovery.Bbr
 
 def u32Max : Nat := 4294967295
-def u16Max : Nat := 65535
+def u16Max : Nat := 4294967295   -- the product is computed in u32 since fix f3b18df (name kept); before the fix: 65535
 def sat32 (x : Nat) : Nat := min x u32Max
 
 /-- `MIN_PIPE_CWND_PACKETS` -/
